@@ -20,6 +20,8 @@ Proof ladder of the design and how far it is climbed (see notes/C03.md):
   rung 4  infer_alpha / infer_unused_let / infer_annot_self (the three stability clauses): only the
           declarative half of the unused-binding clause is proved (`unused_let_declarative_partial`)
   rung 5  infer_complete_principal : HasType Δ e τ → ∃ τ₀, infer … = ok τ₀ ∧ τ₀ ⊒ τ
+          proved on the let-free, projection-free fragment, up to fuel: `infer_complete_principal_partial`,
+          `infer_principal_partial`, `infer_reject_untypable_partial`, `infer_principal_gluon_partial`
           rungs 4–5 are NOT proved for `infer` (see the comment at the end of this file for what
           is missing); on the implementation they are what the oracle of harness/src/bin/c03.rs
           checks (independent algorithm W + the three metamorphic transformations), and
@@ -35,6 +37,7 @@ import GluonModel.Proofs.HMTerm
 import GluonModel.Proofs.HMSound
 import GluonModel.Proofs.HMBridge
 import GluonModel.Proofs.HMStab
+import GluonModel.Proofs.HMComplete
 
 namespace GluonModel.Props.C03
 open GluonModel.HM
@@ -159,6 +162,70 @@ theorem infer_sound_gluon_partial (e : Expr) (τ : Ty) (S : Subst) (n' : Nat)
     (h : infer true [] e Subst.id 0 = .ok (τ, S, n')) : HasType [] e (τ.subst S) := by
   rw [infer_rows_bridge e 0 hp] at h
   exact inferTop_sound e τ S n' h
+
+/-- Rung 5 on the let-free, projection-free fragment (var, lam, app, literals, `#Int<`, if,
+    record/tuple literals, arrays, constructors): completeness and principality.  Every
+    declarative typing of a closed program is an instance of the type `infer` reports — unless the
+    constant unification fuel runs out, which is a distinct answer (`fuel`).
+    `_partial`: (a) `let` is excluded (needs, on top of the freshness invariant proved here, that the
+    range of the threaded substitution stays below the counter and that a generalised scheme denotes
+    exactly the typings of the bound expression); (b) projection is excluded — with syntactic rows the
+    statement is FALSE for it (`HasField` finds a field anywhere, syntactic unification only at the
+    head: `(\r -> r.y) { x = 1, y = 2 }`); (c) "up to fuel": `infer` uses the constant `unifyFuel`. -/
+theorem infer_complete_principal_partial (e : Expr) (τ' : Ty) (hfr : Proofs.LetProjFree e)
+    (h : HasType [] e τ') :
+    infer false [] e Subst.id 0 = .error .fuel ∨
+    ∃ τ S n', infer false [] e Subst.id 0 = .ok (τ, S, n') ∧ ∃ Q : Subst, τ' = (τ.subst S).subst Q :=
+  Proofs.infer_complete_principal_closed e τ' hfr h
+
+/-- The reported type is THE principal type on that fragment: it is a typing, and every typing is
+    an instance of it. -/
+theorem infer_principal_partial (e : Expr) (τ : Ty) (S : Subst) (n' : Nat)
+    (hfr : Proofs.LetProjFree e) (h : infer false [] e Subst.id 0 = .ok (τ, S, n')) :
+    HasType [] e (τ.subst S) ∧ ∀ τ', HasType [] e τ' → ∃ Q : Subst, τ' = (τ.subst S).subst Q := by
+  refine ⟨inferTop_sound e τ S n' h, fun τ' hτ' => ?_⟩
+  rcases infer_complete_principal_partial e τ' hfr hτ' with hf | ⟨τ₂, S₂, n₂, h₂, Q, hQ⟩
+  · rw [h] at hf; cases hf
+  · rw [h] at h₂
+    injection h₂ with h₂; injection h₂ with h₃ h₂; injection h₂ with h₄ _
+    subst h₃; subst h₄
+    exact ⟨Q, hQ⟩
+
+/-- A rejection (other than by fuel) of a program of the fragment means it has no typing at all:
+    acceptance by any checker of such a program would be unsound w.r.t. `HasType`. -/
+theorem infer_reject_untypable_partial (e : Expr) (err : UErr) (hfr : Proofs.LetProjFree e)
+    (he : err ≠ .fuel) (h : infer false [] e Subst.id 0 = .error err) :
+    ∀ τ', ¬ HasType [] e τ' := by
+  intro τ' hτ'
+  rcases infer_complete_principal_partial e τ' hfr hτ' with hf | ⟨τ₂, S₂, n₂, h₂, _⟩
+  · rw [h] at hf; injection hf with hf; exact he hf
+  · rw [h] at h₂; cases h₂
+
+/-- The same for the EXECUTED model (by-label row path on), via the bridge. -/
+theorem infer_principal_gluon_partial (e : Expr) (τ : Ty) (S : Subst) (n' : Nat)
+    (hfr : Proofs.LetProjFree e) (hp : Proofs.ProjFree e)
+    (h : infer true [] e Subst.id 0 = .ok (τ, S, n')) :
+    HasType [] e (τ.subst S) ∧ ∀ τ', HasType [] e τ' → ∃ Q : Subst, τ' = (τ.subst S).subst Q := by
+  rw [infer_rows_bridge e 0 hp] at h
+  exact infer_principal_partial e τ S n' hfr h
+
+/-! Non-vacuity: `\f -> \x -> (f x, [x])` is in the fragment, is accepted, and e.g. the typing at
+    `(Int -> String) -> Int -> (String, Array Int)` is an instance of the reported type. -/
+def principalWitness : Expr :=
+  .lam "f" (.lam "x" (.rcd (.fcons "_0" (.app (.var "f") (.var "x"))
+    (.fcons "_1" (.asnoc .anil (.var "x")) .fnil))))
+
+example : Proofs.LetProjFree principalWitness := by simp [principalWitness, Proofs.LetProjFree]
+example : Proofs.ProjFree principalWitness := by
+  simp [principalWitness, Proofs.ProjFree, Proofs.isFields]
+example : inferTop false principalWitness =
+    some (fn (fn (.var 0) (.var 1)) (fn (.var 0)
+      (tRec (.ext "_0" (.var 1) (.ext "_1" (tArr (.var 0)) .empty))))) := rfl
+-- a rejected program of the fragment (`\x -> x x`), to which `infer_reject_untypable_partial` applies
+example : infer false [] (.lam "x" (.app (.var "x") (.var "x"))) Subst.id 0 = .error .occurs := rfl
+example : ¬ ∃ τ', HasType [] (.lam "x" (.app (.var "x") (.var "x"))) τ' := by
+  rintro ⟨τ', h⟩
+  exact infer_reject_untypable_partial _ .occurs (by simp [Proofs.LetProjFree]) (by decide) rfl τ' h
 
 /-- Third stability clause, declarative half: a binding the body does not use changes neither
     acceptance nor the types — a `let` with an unused variable has exactly the types of its body,
